@@ -26,6 +26,29 @@ if TYPE_CHECKING:
     from ..protocol.request import TitanRequest
 
 
+def _resolve_fully(path: Path) -> Path | None:
+    """Resolve all symlinks in a path, or return None if that is not possible.
+
+    Path.resolve() (non-strict) gives up when it meets a symlink loop and
+    returns a lexically normalised path whose remaining components have NOT
+    been resolved; a containment check on such a path proves nothing. A path
+    is only accepted if resolving it again leaves it unchanged.
+
+    Args:
+        path: The path to resolve.
+
+    Returns:
+        The fully resolved path, or None (symlink loop, embedded NUL, ...).
+    """
+    try:
+        resolved = path.resolve()
+        if resolved.resolve() != resolved:
+            return None
+    except (OSError, RuntimeError, ValueError):
+        return None
+    return resolved
+
+
 class RequestHandler(ABC):
     """Abstract base class for request handlers.
 
@@ -105,10 +128,10 @@ class StaticFileHandler(RequestHandler):
         requested_path = unquote(request.path).lstrip("/")
 
         # Construct the full file path
-        file_path = (self.document_root / requested_path).resolve()
+        file_path = _resolve_fully(self.document_root / requested_path)
 
         # Path traversal protection: ensure the resolved path is within document root
-        if not self._is_safe_path(file_path):
+        if file_path is None or not self._is_safe_path(file_path):
             return GeminiResponse(status=StatusCode.NOT_FOUND.value, meta="Not found")
 
         # If path is a directory, try to serve an index file or generate listing
@@ -118,8 +141,12 @@ class StaticFileHandler(RequestHandler):
             for index_name in self.default_indices:
                 # The index may itself be a symlink: resolve it and apply the same
                 # containment check as for the requested path
-                index_path = (file_path / index_name).resolve()
-                if self._is_safe_path(index_path) and index_path.is_file():
+                index_path = _resolve_fully(file_path / index_name)
+                if (
+                    index_path is not None
+                    and self._is_safe_path(index_path)
+                    and index_path.is_file()
+                ):
                     file_path = index_path
                     index_found = True
                     break
@@ -376,8 +403,8 @@ class FileUploadHandler(UploadHandler):
             return await self._handle_delete(request.path)
 
         # 5. Validate path (path traversal protection)
-        target = (self.upload_dir / unquote(request.path).lstrip("/")).resolve()
-        if not self._is_safe_path(target):
+        target = _resolve_fully(self.upload_dir / unquote(request.path).lstrip("/"))
+        if target is None or not self._is_safe_path(target):
             return GeminiResponse(
                 status=StatusCode.BAD_REQUEST.value,
                 meta="Invalid path",
@@ -430,9 +457,9 @@ class FileUploadHandler(UploadHandler):
                 meta="Delete operations are disabled",
             )
 
-        target = (self.upload_dir / unquote(path).lstrip("/")).resolve()
+        target = _resolve_fully(self.upload_dir / unquote(path).lstrip("/"))
 
-        if not self._is_safe_path(target):
+        if target is None or not self._is_safe_path(target):
             return GeminiResponse(
                 status=StatusCode.BAD_REQUEST.value,
                 meta="Invalid path",
